@@ -50,20 +50,43 @@ DecBlock(key, blk) == DecBlockRK(RoundKeys(key), blk)
 PadLen(n) == (16 - (n % 16)) % 16
 ZeroPad(d) == d \o SubSeq(Zero16, 1, PadLen(Len(d)))
 Block(d, i) == SubSeq(d, 16 * i - 15, 16 * i)          \* i-th 16-byte block (1-based)
+\* CBC as a FOLD over the block indices (TLC evaluates FoldLeft iteratively; the recursive formulation below is kept as the
+\* reference and compared with it on the test vectors - it is quadratic in TLC and overflows the stack on long inputs)
+LOCAL INSTANCE SequencesExt
+BlockIndices(n) == SubSeq([i \in 1..n |-> i], 1, n)
+Flatten16(blocks, n) == SubSeq([j \in 1..n |-> blocks[((j - 1) \div 16) + 1][((j - 1) % 16) + 1]], 1, n)
+CbcEnc(key, iv, d) ==                                                \* Len(d) multiple of 16
+    LET rk == RoundKeys(key)
+        nb == Len(d) \div 16
+        step(st, i) == LET c == EncBlockRK(rk, Xor16(Block(d, i), st[1])) IN <<c, Append(st[2], c)>>
+        fin == FoldLeft(step, <<iv, <<>>>>, BlockIndices(nb))
+    IN  Flatten16(fin[2], 16 * nb)
+CbcDec(key, iv, d) ==
+    LET rk == RoundKeys(key)
+        nb == Len(d) \div 16
+        step(st, i) == LET c == Block(d, i) IN <<c, Append(st[2], Xor16(DecBlockRK(rk, c), st[1]))>>
+        fin == FoldLeft(step, <<iv, <<>>>>, BlockIndices(nb))
+    IN  Flatten16(fin[2], 16 * nb)
+\* MAC: last block of CBC over the zero-padded data; only the chaining value is carried
+CbcMac(key, iv, d) ==                                                \* d non-empty
+    LET rk == RoundKeys(key)
+        p == ZeroPad(d)
+        step(prev, i) == EncBlockRK(rk, Xor16(Block(p, i), prev))
+    IN  FoldLeft(step, iv, BlockIndices(Len(p) \div 16))
+\* ---- reference formulations (recursive, as first written from the standard's description)
 RECURSIVE CbcEncFrom(_, _, _, _, _)
 CbcEncFrom(rk, d, i, prev, acc) ==
     IF 16 * i > Len(d) THEN acc
     ELSE LET c == EncBlockRK(rk, Xor16(Block(d, i), prev)) IN CbcEncFrom(rk, d, i + 1, c, acc \o c)
-CbcEnc(key, iv, d) == CbcEncFrom(RoundKeys(key), d, 1, iv, <<>>)     \* Len(d) multiple of 16
+CbcEncRef(key, iv, d) == CbcEncFrom(RoundKeys(key), d, 1, iv, <<>>)
 RECURSIVE CbcDecFrom(_, _, _, _, _)
 CbcDecFrom(rk, d, i, prev, acc) ==
     IF 16 * i > Len(d) THEN acc
     ELSE LET c == Block(d, i) IN CbcDecFrom(rk, d, i + 1, c, acc \o Xor16(DecBlockRK(rk, c), prev))
-CbcDec(key, iv, d) == CbcDecFrom(RoundKeys(key), d, 1, iv, <<>>)
-\* MAC: last block of CBC over the zero-padded data; only the chaining value is carried
+CbcDecRef(key, iv, d) == CbcDecFrom(RoundKeys(key), d, 1, iv, <<>>)
 RECURSIVE CbcMacFrom(_, _, _, _)
 CbcMacFrom(rk, d, i, prev) ==
     IF 16 * i > Len(d) THEN prev ELSE CbcMacFrom(rk, d, i + 1, EncBlockRK(rk, Xor16(Block(d, i), prev)))
-CbcMac(key, iv, d) == CbcMacFrom(RoundKeys(key), ZeroPad(d), 1, iv)   \* d non-empty
+CbcMacRef(key, iv, d) == CbcMacFrom(RoundKeys(key), ZeroPad(d), 1, iv)
 IvOfIndex(n) == <<0,0,0,0, 0,0,0,0, 0,0,0,0, 0,0, n \div 256, n % 256>>
 =============================================================================
